@@ -189,7 +189,7 @@ type c13Case struct {
 
 // ---- generators ----
 
-var c13Strings = [][]byte{{}, []byte("a"), []byte("\x00"), []byte("a\x00b"), {0xff, 0xfe}, []byte("héllo"), []byte("\xc3\x28"), []byte(" "), []byte(strings.Repeat("x", 300)), {5}, {7}}
+var c13Strings = [][]byte{{}, []byte(" lead"), []byte("trail\t"), []byte(" a "), []byte("a"), []byte("\x00"), []byte("a\x00b"), {0xff, 0xfe}, []byte("héllo"), []byte("\xc3\x28"), []byte(" "), []byte(strings.Repeat("x", 300)), {5}, {7}}
 var c13Ints64 = []int64{0, 1, -1, math.MaxInt64, math.MinInt64, math.MaxInt32, math.MinInt32, 1 << 32, 255, 256}
 var c13Ints32 = []int64{0, 1, -1, math.MaxInt32, math.MinInt32, 255, 65536}
 var c13Floats = []uint64{0, math.Float64bits(1.5), math.Float64bits(-0.0), math.Float64bits(math.MaxFloat64), math.Float64bits(-math.MaxFloat64), math.Float64bits(math.SmallestNonzeroFloat64),
@@ -514,7 +514,12 @@ func writeField(b *boltz.TypedBucket, name string, v TV, checker boltz.FieldChec
 func writeFieldCtx(ctx *boltz.PersistContext, name string, v TV) {
 	switch v.K {
 	case "s":
-		ctx.SetString(name, string(v.B))
+		if len(v.B) > 0 && strings.TrimSpace(string(v.B)) != "" && len(v.B)%2 == 1 {
+			// a required string is stored exactly as given (only its emptiness is checked)
+			ctx.SetRequiredString(name, string(v.B))
+		} else {
+			ctx.SetString(name, string(v.B))
+		}
 	case "i32":
 		ctx.SetInt32(name, int32(v.I))
 	case "i64":
@@ -644,15 +649,37 @@ func runC13(c c13Case) kit.Result {
 	}
 	switch c.Kind {
 	case "values":
+		var sameTx string
 		err := db.DB.Update(func(tx *bbolt.Tx) error {
 			b := boltz.GetOrCreatePath(tx, "root", "ent")
+			// the fields are looked at before they exist (an application reads the old value first), written, and read
+			// back through the same bucket object inside the same transaction
+			for _, f := range c.Fields {
+				_ = b.GetString(f.Name)
+				_ = b.GetStringList(f.Name)
+				_ = b.GetMap(f.Name)
+				_ = b.IsStringListEmpty(f.Name)
+			}
 			for _, f := range c.Fields {
 				writeField(b, f.Name, f.V, nil)
+			}
+			if b.HasError() {
+				return b.GetError()
+			}
+			for _, f := range c.Fields {
+				if d := checkField(b, f.Name, f.V); d != "" {
+					sameTx = d
+					break
+				}
 			}
 			return b.GetError()
 		})
 		if err != nil {
 			res.Err = fmt.Errorf("writing supported values failed: %v", err)
+			return res
+		}
+		if sameTx != "" {
+			res.Err = fmt.Errorf("read back inside the writing transaction, through the same bucket object: %s", sameTx)
 			return res
 		}
 		_ = db.DB.View(func(tx *bbolt.Tx) error {
